@@ -234,6 +234,22 @@ def verilog_all_strings(maxlen=5):
     return F.result(n)
 
 
+import enum as _enum
+
+
+class ModEnum(_enum.IntEnum):
+    P = 0
+    Q = 2
+    R = 7
+
+
+class Holder(object):
+    class Nested(_enum.IntEnum):
+        U = 1
+        V = 3
+        W = 6
+
+
 def signed_and_formats(bwmax=9):
     import pyrtl
     n = 0
@@ -267,6 +283,30 @@ def signed_and_formats(bwmax=9):
             if pyrtl.val_to_formatted_str(v, 's%d' % bw) != str(sv):
                 return dict(failed=True, case=dict(fn='val_to_formatted_str', v=v, format='s%d' % bw),
                             observed=pyrtl.val_to_formatted_str(v, 's%d' % bw), expected=str(sv))
+    # enum format 'e<w>/<Name>': module-level, class-nested and function-local Enum classes; the set holds a
+    # second enum (with overlapping values) that must not be picked
+    import enum
+
+    class Local(enum.IntEnum):
+        A = 0
+        B = 1
+        C = 5
+
+    class Other(enum.IntEnum):
+        X = 0
+        Y = 1
+        Z = 5
+    for E in (ModEnum, Holder.Nested, Local):
+        for es in ([E, Other], [Other, E]):
+            for m in E:
+                n += 1
+                fmt = 'e3/%s' % E.__name__
+                st, sname = _try(lambda: pyrtl.val_to_formatted_str(int(m), fmt, enum_set=es))
+                st2, back = _try(lambda: pyrtl.formatted_str_to_val(sname, fmt, enum_set=es)) if st == 'ok' else (st, None)
+                if st != 'ok' or sname != m.name or st2 != 'ok' or back != int(m):
+                    return dict(failed=True, case=dict(fn='enum format roundtrip', enum=E.__qualname__, member=m.name,
+                                                       set=[x.__name__ for x in es]),
+                                observed=dict(string=[st, sname], back=[st2, back]), expected=dict(string=m.name, back=int(m)))
     # truncate / log2
     for v in list(range(-40, 40)) + [2 ** 64 + 5]:
         for bw in range(1, 8):
